@@ -13,7 +13,8 @@
 //              backlog / listener / pending establisher. Ready per poll() AND the needed readiness not requested from the poll set (epoll_ctl log of the
 //              shim) = lost registration -> violation (no timing involved). Ready per poll() with the registration in place = kernel wake-up still in
 //              flight (loopback softirq): re-polled with real-time naps, inconclusive after 10 s, never a violation
-//   closing  : failed read/write (recv/send log) => onClosed before the loop blocks
+//   closing  : failed read/write (recv/send log) => onClosed before the loop blocks; "broadcast-to-dead-peers" makes writes to 2..3 clients fail hard in one go, so several
+//              onClosed notifications are queued in the same loop iteration, and onClosed also drops another client whose notification is still queued (it must never arrive)
 //   interrupt: run() returns iff interrupt() was requested since the last return; after interrupt() the very next poll must wake
 //   names    : establishers made with Server::connect(host name, port): the library resolves in a worker thread of its thread pool. getaddrinfo is interposed
 //              (net_shims) and every resolution waits inside the hook until the scenario releases it (an external action like peer traffic), so "resolution
@@ -30,6 +31,14 @@
 #include <sched.h>
 #include <sys/stat.h>
 #include <netdb.h>
+#ifndef VERIF_NO_PRIVATE
+#define SOCK_FD(sockref) ((sockref).s)
+#define SOCK_TAKE_FD(sockref, out) do { (out) = (sockref).s; (sockref).s = -1; } while (0)
+#else   // fallback flavour: public API only
+#define SOCK_FD(sockref) ((int)(sockref).getFileDescriptor())
+#define SOCK_TAKE_FD(sockref, out) do { (out) = dup((int)(sockref).getFileDescriptor()); (sockref).close(); } while (0)
+#endif
+
 
 using namespace vh;
 namespace ns = netshim;
@@ -179,7 +188,7 @@ static bool releaseGate(EstabM* m) {
 // by-name establisher whose resolution has completed: has the loop opened its socket yet (no callback tells)?
 static void refreshEstab(EstabM* m) {
   if (!m->alive || m->done || !m->byName || !m->released || m->sockKnown) return;
-  int s = ((Socket*)(void*)m->e)->s;
+  int s = SOCK_FD(*(Socket*)(void*)m->e);
   if (s >= 0) { m->fd = s; m->lport = localPort(s); m->sockKnown = true; cnt("named_establishers_seen_connecting"); }
 }
 
@@ -289,7 +298,7 @@ static ClientM* newPair() {
   Server::Client* c = g_srv->pair(m->cb, peer);
   setctx(ctxBase());
   if (!c) harnessBug("Server::pair failed: %s", strerror(errno));
-  int pfd = peer.s; peer.s = -1; su::setNonBlock(pfd);
+  int pfd; SOCK_TAKE_FD(peer, pfd); su::setNonBlock(pfd);
   bindClient(m, *c, pfd);
   cnt("pairs_created"); hist.addf("  [%s] client%d = pair()\n", VN[g_venue], m->id);
   g_fp = mix(g_fp, 300);
@@ -335,7 +344,7 @@ static ListenerM* newListener() {
   m->l = g_srv->listen(Socket::loopbackAddress, 0, m->cb);
   setctx(ctxBase());
   if (!m->l) { cnt("listen_failed"); delete m; return 0; }
-  m->fd = ((Socket*)(void*)m->l)->s; m->port = localPort(m->fd);
+  m->fd = SOCK_FD(*(Socket*)(void*)m->l); m->port = localPort(m->fd);
   g_ls.push(m); cnt("listeners_created"); hist.addf("  [%s] listener%d = listen(127.0.0.1:%u)\n", VN[g_venue], m->id, (unsigned)m->port);
   g_fp = mix(g_fp, 600);
   return m;
@@ -383,7 +392,7 @@ static EstabM* newEstab(int kind) {
   }
   setctx(ctxBase());
   if (!m->e) { cnt("connect_returned_null"); delete m; return 0; }
-  if (!byName) { m->fd = ((Socket*)(void*)m->e)->s; m->lport = localPort(m->fd); m->sockKnown = true; }
+  if (!byName) { m->fd = SOCK_FD(*(Socket*)(void*)m->e); m->lport = localPort(m->fd); m->sockKnown = true; }
   g_es.push(m); cnt(open ? "establishers_to_open_port" : "establishers_to_closed_port");
   if (byName) { cnt("establishers_by_name"); hist.addf("  [%s] establisher%d = connect(host name: %s), resolution pending\n", VN[g_venue], m->id, EKN[kind]); }
   else { if (kind == EK_NUMERIC_OPEN) cnt("establishers_by_numeric_host"); hist.addf("  [%s] establisher%d = connect(%s port) from port %u\n", VN[g_venue], m->id, open ? "open" : "closed", (unsigned)m->lport); }
@@ -1061,7 +1070,7 @@ static void threadCase(long idx) {
   for (int i = 0; i < ntimers; ++i) { tcb[i].interval = 1 + (int64_t)r.below(5); tcb[i].k = 0; tcb[i].alive = true; tcb[i].t0 = Time::ticks(); tm[i] = t_srv->time(tcb[i].interval, tcb[i]); }
   RClientCB ccb; ccb.inRead = 0; ccb.reads = 0; Socket peer; ccb.c = t_srv->pair(ccb, peer);
   if (!ccb.c) harnessBug("pair failed");
-  t_pfd = peer.s; peer.s = -1;
+  SOCK_TAKE_FD(peer, t_pfd);
   pthread_t th[3]; TArg args[3];
   int total = 0;
   for (int i = 0; i < nthreads; ++i) { args[i].id = i; args[i].n = 3 + (int)r.below(28); args[i].seed = opts.seed * 1000003ULL + (u64)idx; args[i].maxDelayUs = maxDelay; args[i].sender = i == 0; total += args[i].n; }
